@@ -1,1 +1,2 @@
 import GohtVerif.Model.Render
+import GohtVerif.Proofs.C06
